@@ -2,7 +2,7 @@
    regenerated from /repo on every run), plus the string lemma behind "ids of different kinds differ". *)
 From Coq Require Import String Ascii ZArith List Bool Lia.
 Import ListNotations.
-From RV Require Import Model.HashModel Gen.C06Sites Model.C06Chk.
+From RV Require Import Model.HashModel Gen.C06Sites Gen.C06BinSites Model.C06Chk.
 Local Open Scope string_scope.
 
 Lemma hash_sites_lookup_only : forallb hsite_ok c06_hash_sites = true.
@@ -37,6 +37,11 @@ Proof. vm_compute. reflexivity. Qed.
 Lemma cache_per_call : cache_per_call_ok = true.
 Proof. vm_compute. reflexivity. Qed.
 Lemma gen_fns_wf : gen_fns_ok = true.
+Proof. vm_compute. reflexivity. Qed.
+
+Lemma bin_ledger : bin_ledger_ok = true.
+Proof. vm_compute. reflexivity. Qed.
+Lemma scanner_selftest : c06_scanner_selftest = true.
 Proof. vm_compute. reflexivity. Qed.
 
 (* the scan saw the code: none of the lists the theorems quantify over is empty *)
